@@ -392,8 +392,14 @@ func (h *Handler) Provision(ctx caddy.Context) error {
 func (h *Handler) Cleanup() error {
 	err := h.cleanupConnections()
 
-	// remove hosts from our config from the pool
+	// remove hosts from our config from the pool; only those we actually
+	// added to it, since Cleanup also runs after a Provision that failed
+	// before the upstreams were set up, and then the references in the
+	// pool belong to the config that is still running
 	for _, upstream := range h.Upstreams {
+		if upstream.Host == nil {
+			continue
+		}
 		_, _ = hosts.Delete(upstream.String())
 	}
 
